@@ -166,8 +166,16 @@ func (p *polling) onDataRequest(ctx *types.HttpContext) {
 		packet = types.NewStringBuffer(nil)
 	}
 	if body := ctx.Request().Body; body != nil {
-		packet.ReadFrom(body)
+		// The declared length was checked above; a body of unknown length (chunked) is bounded while reading.
+		_, err := packet.ReadFrom(http.MaxBytesReader(ctx.Response(), body, p.MaxHttpBufferSize()))
 		body.Close()
+		if err != nil {
+			cleanup()
+
+			ctx.SetStatusCode(http.StatusRequestEntityTooLarge)
+			ctx.Write(nil)
+			return
+		}
 	}
 	p.Proto().OnData(packet)
 
